@@ -33,11 +33,18 @@ def gen_cases(tier):
             # variable left and means TRUE (bound >= 0) or FALSE (bound < 0)
             c_ = rng.choice([-1, -2, 1, 0])
             r_ = rng.random()
-            if r_ < 0.25:
-                # nothing but the cancelling row: after the rename no variable is left in the whole contract
-                d = {"inv": ["i", "s"], "outv": [], "a": [({"i": 1, "s": -1}, abs(c_))], "g": [({"i": 1, "s": -1}, abs(c_) + 2)] if rng.random() < 0.5 else []}
+            if r_ < 0.35 and rng.random() < 0.5:
+                # a contract that says nothing but "these two ports are equal": merged, every row reads 0 <= 0 -- true, and satisfiable
+                x_, y_ = rng.choice([("o", "p"), ("p", "o")])
+                rows = [({x_: 1, y_: -1}, 0), ({x_: -1, y_: 1}, 0)]
+                d = {"inv": ["i"] if rng.random() < 0.5 else [], "outv": ["o", "p"], "a": [], "g": rows}
+                pairs = [("p", "o"), ("o", "p"), ("o", "fresh")]
+            elif r_ < 0.35:
+                # nothing but the cancelling row: after the rename no variable is left in the whole contract (the bound that is left may be 0)
+                c0 = rng.choice([0, 0, 1, 2])
+                d = {"inv": ["i", "s"], "outv": [], "a": [({"i": 1, "s": -1}, c0)], "g": [({"i": 1, "s": -1}, c0 + rng.choice([0, 2]))] if rng.random() < 0.5 else []}
                 pairs = [("i", "s"), ("s", "i"), ("i", "fresh")]
-            elif r_ < 0.6:
+            elif r_ < 0.65:
                 d = {"inv": ["i", "s", "j"], "outv": ["o"], "a": [({"i": 1, "s": -1}, c_), ({"j": 1}, 3)], "g": [({"o": 1, "j": -1}, 2)] if rng.random() < 0.5 else []}
                 pairs = [("i", "s"), ("s", "i"), ("i", "fresh"), ("j", "i")]
             else:
@@ -45,7 +52,7 @@ def gen_cases(tier):
                 pairs = [("o", "p"), ("p", "o"), ("o", "fresh")]
             try:
                 gen.mk_contract(d)
-                cases.append({"id": i + 1, "raw": d, "pairs": pairs, "lists": [[pairs[0], ("fresh", "n1")]]})
+                cases.append({"id": i + 1, "raw": d, "pairs": pairs, "lists": [[pairs[0], ("fresh", "n1")], [(pairs[0][0], "tmp_v"), ("tmp_v", pairs[0][1])]]})
                 continue
             except ValueError:
                 pass
